@@ -35,13 +35,27 @@ def shards(tier, seed):
 def requirements(tier):
     r = {f"checked:{k}": 150 for k in KINDS}
     r.update({"w_equal_sized_keys": 300, "w_mixed_0d_nd": 200, "w_unreachable_input_zeros": 50, "w_jac_linearity": 100,
-              "w_jac_rows_vs_grad": 100, "w_stack_absent_key": 100, "w_chunked": 100})
+              "w_jac_rows_vs_grad": 100, "w_stack_absent_key": 100, "w_chunked": 100, "w_one_shot_iterable_argument": 300})
     return r
 
 
 def T():
     import torchjd.autojac._transform as tr
     return tr
+
+
+def cont(rng, items, ctx=None):
+    """The key collections handed to the constructors are `Iterable[Tensor]`: lists, tuples, dict views and ONE-SHOT iterators."""
+    k = int(rng.integers(4))
+    if k == 0:
+        return list(items)
+    if k == 1:
+        return tuple(items)
+    if k == 2:
+        return {x: None for x in items}.keys()
+    if ctx is not None:
+        ctx.count("w_one_shot_iterable_argument")
+    return (x for x in items)
 
 
 def rand_keys(rng, n=None):
@@ -112,7 +126,7 @@ def check_grad(case, ctx):
     crng = np.random.default_rng(case["cseed"])
     cots = [torch.tensor(crng.standard_normal(tuple(o.shape)), dtype=torch.float64) for o in b.outputs]
     inputs = [b.leaves[j] for j in rg]
-    g = tr.Grad(b.outputs, inputs, retain_graph=case["retain"])
+    g = tr.Grad(cont(crng, b.outputs, ctx), cont(crng, inputs, ctx), retain_graph=case["retain"])
     out = guarded(lambda: g(tr.Gradients(dict(zip(b.outputs, cots)))), ctx, _slimp(case), "Grad")
     ref = torch.autograd.grad(twin.outputs, [twin.leaves[j] for j in rg], grad_outputs=cots, allow_unused=True)
     vio = None
@@ -145,7 +159,7 @@ def check_jac(case, ctx):
     C2 = [torch.tensor(crng.standard_normal((m,) + tuple(o.shape)), dtype=torch.float64) for o in b.outputs]
     a, bb = float(np.round(crng.uniform(-2, 2), 3)), float(np.round(crng.uniform(-2, 2), 3))
     inputs = [b.leaves[j] for j in rg]
-    jac = tr.Jac(b.outputs, inputs, case["chunk"], retain_graph=True)
+    jac = tr.Jac(cont(crng, b.outputs, ctx), cont(crng, inputs, ctx), case["chunk"], retain_graph=True)
     o1 = guarded(lambda: jac(tr.Jacobians(dict(zip(b.outputs, C1)))), ctx, _slimp(case), "Jac")
     vio = None
     if set(o1.keys()) != set(inputs) or not isinstance(o1, tr.Jacobians):
@@ -241,7 +255,7 @@ def check_init(case, ctx):
     tr = T()
     rng = np.random.default_rng(case["kseed"])
     keys, shapes = rand_keys(rng)
-    out = guarded(lambda: tr.Init(keys)(tr.EmptyTensorDict()), ctx, case, "Init")
+    out = guarded(lambda: tr.Init(cont(rng, keys, ctx))(tr.EmptyTensorDict()), ctx, case, "Init")
     vio = None
     if set(out.keys()) != set(keys):
         vio = ("init_keys", {})
@@ -263,7 +277,7 @@ def check_diagonalize(case, ctx):
     vals = [torch.tensor(rng.standard_normal(s), dtype=torch.float64) for s in shapes]
     order = list(np.random.default_rng(case["perm_seed"]).permutation(len(keys)))
     considered = [keys[i] for i in order]
-    out = guarded(lambda: tr.Diagonalize(considered)(tr.Gradients(dict(zip(keys, vals)))), ctx, case, "Diagonalize")
+    out = guarded(lambda: tr.Diagonalize(cont(rng, considered, ctx))(tr.Gradients(dict(zip(keys, vals)))), ctx, case, "Diagonalize")
     N = sum(int(np.prod(s)) for s in shapes)
     vio = None
     if set(out.keys()) != set(keys) or not isinstance(out, tr.Jacobians):
@@ -292,7 +306,7 @@ def check_select(case, ctx):
     keys, shapes = rand_keys(rng)
     vals = [torch.tensor(rng.standard_normal(s), dtype=torch.float64) for s in shapes]
     sub = [i for i in range(len(keys)) if rng.random() < 0.6]
-    out = guarded(lambda: tr.Select([keys[i] for i in sub], keys)(tr.Gradients(dict(zip(keys, vals)))), ctx, case, "Select")
+    out = guarded(lambda: tr.Select(cont(rng, [keys[i] for i in sub], ctx), cont(rng, keys, ctx))(tr.Gradients(dict(zip(keys, vals)))), ctx, case, "Select")
     if set(out.keys()) != {keys[i] for i in sub} or any(not torch.equal(out[keys[i]], vals[i]) for i in sub) or not isinstance(out, tr.Gradients):
         ctx.violation("select_is_not_the_restriction", {**case, "shapes": [list(s) for s in shapes]}, {"selected": sub})
     ctx.count("checked:select")
@@ -335,7 +349,7 @@ def check_aggregate(case, ctx):
     jacs = [torch.tensor(rng.standard_normal((m,) + s), dtype=torch.float64) for s in shapes]
     order = list(np.random.default_rng(case["perm_seed"]).permutation(len(keys)))
     agg = RecordingAggregator(aggs.make({"name": "Constant", "weights": aggs.random_weights(rng, m)}, torch.float64))
-    out = guarded(lambda: tr.Aggregate(agg, [keys[i] for i in order])(tr.Jacobians(dict(zip(keys, jacs)))), ctx, case, "Aggregate")
+    out = guarded(lambda: tr.Aggregate(agg, cont(rng, [keys[i] for i in order], ctx))(tr.Jacobians(dict(zip(keys, jacs)))), ctx, case, "Aggregate")
     vio = None
     exp_matrix = torch.cat([jacs[i].reshape(m, -1) for i in order], dim=1)
     if len(agg.calls) != 1:
@@ -386,3 +400,11 @@ def replay(case, ctx):
         TABLE[case["kind"]][1](case, ctx)
     except TransformRaised:
         pass
+
+
+def aggregate_one_shot_key_order(v):
+    """F8: Aggregate built from a one-shot key_order iterable fails at construction (key_order consumed three times)."""
+    return v["kind"] == "transform_raised" and v["detail"].get("transform") == "Aggregate" and "must match with the `required_keys`" in v["detail"].get("error", "")
+
+
+CLASSIFIERS = {"aggregate_one_shot_key_order": aggregate_one_shot_key_order}
